@@ -89,11 +89,13 @@ void appendShellEscapedString(llvm::raw_ostream& os, StringRef string) {
   os << formatWindowsCommandArg(string);
   return;
 #else
-  static const std::string whitelist = "abcdefghijklmnopqrstuvwxyzABCDEFGHIJKLMNOPQRSTUVWXYZ1234567890-_/:@#%+=.,";
+  static const std::string whitelist = "abcdefghijklmnopqrstuvwxyzABCDEFGHIJKLMNOPQRSTUVWXYZ1234567890-_/:@%+=.,";
   auto pos = string.find_first_not_of(whitelist);
 
-  // We don't need any escaping just append the string and return.
-  if (pos == std::string::npos) {
+  // We don't need any escaping just append the string and return. (The empty
+  // string does need quotes, otherwise it would not be a word at all; '#' is
+  // not in the whitelist because it starts a comment at the start of a word.)
+  if (pos == std::string::npos && !string.empty()) {
     os << string;
     return;
   }
